@@ -324,7 +324,7 @@ class TraceVerdict:
 
 
 def validate_trace(spec, events, workdir, shards=NCPU, timeout=900, env=None, cfg=None,
-                   heap="3g", min_per_shard=200):
+                   heap="3g", min_per_shard=200, seg_start=None):
     """Validate a list of events with a trace specification.
     The spec reads IOEnv.TRACE, consumes events one per step and must print
     <<"@@", "REACHED", n>> from its POSTCONDITION (n = events consumed);
@@ -338,8 +338,19 @@ def validate_trace(spec, events, workdir, shards=NCPU, timeout=900, env=None, cf
     k = max(1, min(shards, n // min_per_shard if n >= min_per_shard else 1))
     per = (n + k - 1) // k
     parts = []
-    for i in range(k):
-        chunk = events[i * per:(i + 1) * per]
+    if seg_start is None:
+        chunks = [events[i * per:(i + 1) * per] for i in range(k)]
+    else:
+        # histories: cut only where an independent segment starts
+        chunks, cur = [], []
+        for j, e in enumerate(events):
+            if cur and len(cur) >= per and j in seg_start:
+                chunks.append(cur)
+                cur = []
+            cur.append(e)
+        if cur:
+            chunks.append(cur)
+    for i, chunk in enumerate(chunks):
         if not chunk:
             continue
         p = os.path.join(workdir, "shard%02d.ndjson" % i)
@@ -354,7 +365,7 @@ def validate_trace(spec, events, workdir, shards=NCPU, timeout=900, env=None, cf
         return p, chunk, r
 
     t0 = time.time()
-    with ThreadPoolExecutor(max_workers=len(parts)) as ex:
+    with ThreadPoolExecutor(max_workers=min(len(parts), NCPU)) as ex:
         results = list(ex.map(one, parts))
     v.wall = time.time() - t0
     for p, chunk, r in results:
@@ -541,7 +552,8 @@ class Conformance:
 
     def run(self, label, cfg, driver_name, driver_srcs, cases, spec, shards=NCPU, extra_cc=None,
             wraps=None, env=None, driver_timeout=900, tlc_timeout=900, driver_args=None,
-            bdir=None, nontrivial=None, min_per_shard=200):
+            bdir=None, nontrivial=None, min_per_shard=200, seg_start=None, case_seg_start=None,
+            heap="3g"):
         bdir = bdir or build_relic(cfg)
         exe = cc_harness(cfg, driver_name, driver_srcs, bdir=bdir, extra=extra_cc, wraps=wraps)
         d = os.path.join(self.wd, label)
@@ -555,8 +567,14 @@ class Conformance:
         t1 = time.time()
         tenv = dict(env or {})
         tenv["KNOWN"] = self.known_file
+        cuts = None
+        if case_seg_start is not None:
+            # event indices at which an independent history (segment) begins
+            S = set(i for i, ln in enumerate(cases) if case_seg_start(ln))
+            cuts = set(j for j, e in enumerate(events)
+                       if e.get("i") in S and (j == 0 or events[j - 1].get("i") != e.get("i")))
         v = validate_trace(spec, events, os.path.join(d, "tlc"), shards=shards, env=tenv,
-                           timeout=tlc_timeout, min_per_shard=min_per_shard)
+                           timeout=tlc_timeout, min_per_shard=min_per_shard, seg_start=cuts, heap=heap)
         log("%s/%s: %d cases, %d events, driver %.1fs, validation %.1fs, accepted %d, rejected %d"
             % (self.prop, label, len(cases), len(events), t1 - t0, v.wall, v.accepted, len(v.rejected)))
         for k in v.known:
@@ -574,6 +592,12 @@ class Conformance:
                 rd = os.path.join(d, "confirm%d" % ci)
                 os.makedirs(rd, exist_ok=True)
                 cp = os.path.join(rd, "cases.txt")
+                if case_seg_start is not None:
+                    # a history: re-run from the start of the independent segment
+                    s0 = ci
+                    while s0 > 0 and not case_seg_start(cases[s0]):
+                        s0 -= 1
+                    line = "\n".join(cases[s0:ci + 1])
                 open(cp, "w").write(line + "\n")
                 ev2 = run_driver(exe, cp, os.path.join(rd, "trace.ndjson"), timeout=120, args=driver_args)
                 v2 = validate_trace(spec, ev2, os.path.join(rd, "tlc"), shards=1, env=tenv, timeout=300)
@@ -642,7 +666,7 @@ def replay_generic(path):
         print("replay file has no executable case (abnormal execution): %s" % r.get("event"))
         report_violation(prop, path)
         return 1
-    events, v = c.run("replay", r["cfg"], r["driver"], r["driver_srcs"], [r["case"]], r["spec"],
+    events, v = c.run("replay", r["cfg"], r["driver"], r["driver_srcs"], r["case"].split("\n"), r["spec"],
                       shards=1, extra_cc=r.get("extra_cc"), wraps=r.get("wraps"), env=r.get("env"),
                       driver_args=r.get("driver_args"))
     for key, n in c.known_hits.items():
